@@ -115,6 +115,7 @@ pub fn c14(out: &mut dyn Write, tier: &str, rng: &mut Rng, st: &mut Stats) {
         // --- the syntax tree
         {
             let tree = SymbolicParseTree::new(&pf.bdd);
+            if i % 3 == 2 { let mut first: Vec<u8> = Vec::new(); let _ = guarded(std::panic::AssertUnwindSafe(|| tree.render_dot(&mut first))); }
             let mut buf: Vec<u8> = Vec::new();
             let ok = guarded(std::panic::AssertUnwindSafe(|| tree.render_dot(&mut buf))).is_ok();
             let rendered = String::from_utf8_lossy(&buf).to_string();
@@ -207,6 +208,9 @@ pub fn c14(out: &mut dyn Write, tier: &str, rng: &mut Rng, st: &mut Stats) {
             let mut bad = false;
             for flt in [TruthTableEntry::Any, TruthTableEntry::True, TruthTableEntry::False] {
                 let g = BDDGraph::new(&bdd, flt);
+                // every third diagram: what is looked at is the SECOND rendering of the same graph value (an export keeps
+                // nothing from one walk to the next)
+                if i % 3 == 1 { let mut first: Vec<u8> = Vec::new(); let _ = guarded(std::panic::AssertUnwindSafe(|| g.render_dot(&mut first))); st.hit("bdd.second-rendering-of-one-graph"); }
                 let mut buf: Vec<u8> = Vec::new();
                 let ok = guarded(std::panic::AssertUnwindSafe(|| g.render_dot(&mut buf))).is_ok();
                 let rendered = String::from_utf8_lossy(&buf).to_string();
